@@ -222,15 +222,15 @@ struct E6 : Engine {
 				if(res.ok) for(size_t i=0;i<w.h.size();i++){ HRec &r = w.h[i]; if(r.count || r.fd < 0) continue;
 					for(auto &xc:w.xcancels) if(xc.first == r.fd && xc.second > r.armed_seq){ res.fail("io-wait-lost-after-cross-thread-cancel",r.kind + "#" + std::to_string(i) + ": set_io_event() had returned (event " + std::to_string(r.armed_seq) + ") before cancel_io_events() was called from another thread (event " + std::to_string(xc.second) + "), yet the handler was neither invoked with a cancellation code nor is it still cancellable by that call","xthread-cancel-io-lost"); break; } }
 				// final clean-up on the loop thread; an operation whose continuation is in flight is not affected by a cancel, so repeat
-				for(int round=0;round<3 && res.ok;round++){
+				for(int round=0;round<4000 && res.ok;round++){   // each round lets an in-flight operation consume at least one more byte: terminates
 					bool all = true; for(auto &r:w.h) if(!r.count) all = false; if(all) break;
 					for(auto &pr:pairs){ int fd = pr.first; aio::io_service *sp = &srv; srv.post([sp,fd]{ sp->cancel_io_events(fd); }); }
 					for(auto &ch:chains) if(ch->sock){ Chain *cp = ch.get(); srv.post([cp]{ if(W->h[cp->hid].count == 0) cp->sock->cancel(); }); }
 					if(!roundtrip()) res.fail("handler-never-invoked","a posted handler was never invoked by a running loop");
-					if(round) res.counters["extra_cancel_rounds"] = res.counters.geti("extra_cancel_rounds") + 1;
+					if(round == 1) res.counters["extra_cancel_rounds"] = res.counters.geti("extra_cancel_rounds") + 1;
 				}
 				bool all = true; for(auto &r:w.h) if(!r.count) all = false;
-				if(!all && res.ok) res.fail("handler-never-invoked","after cancelling all descriptor waits (3 rounds) these handlers were never invoked:" + outstanding(true));
+				if(!all && res.ok) res.fail("handler-never-invoked","after cancelling all descriptor waits (repeated until nothing was left in flight) these handlers were never invoked:" + outstanding(true));
 			} else env.join();
 			w.stop_called = true; srv.stop();
 			loop.join();
